@@ -1016,7 +1016,29 @@ class C03(core.Check):
                     return f"description writes {a!r}, the specification holds {float(b)!r}"
         return None
 
+    @staticmethod
+    def _derived_at_switch(run: dict) -> bool:
+        """A relation of this run received a value that an earlier relation of the same run had computed in floats
+        (e.g. total = end/start) and that lies within 1e-9·TOL of a `TOL` switch (|x-1| = TOL): the float and the
+        exact value may fall on different sides, both branches are legitimate there."""
+        produced = set()
+        for e in run["log"]:
+            for a in e["args"]:
+                if isinstance(a, str) and a in produced:
+                    x = float(Fraction(a))
+                    if abs(abs(x - 1) - LIB_TOL) <= 1e-9 * LIB_TOL:
+                        return True
+            if isinstance(e["ret"], str):
+                produced.add(e["ret"])
+        return False
+
     def _cmp_calc(self, run: dict, ans: str, what: str, L: float = 1.0) -> Optional[str]:
+        why = self._cmp_calc_strict(run, ans, what, L)
+        if why and self._derived_at_switch(run):
+            return None
+        return why
+
+    def _cmp_calc_strict(self, run: dict, ans: str, what: str, L: float = 1.0) -> Optional[str]:
         tok = ans.split()
         plan = next((t[5:] for t in tok if t.startswith("plan:")), "-")
         plan_list = [] if plan == "-" else plan.split(";")
@@ -1496,7 +1518,17 @@ class C03(core.Check):
                 else:
                     n1, n2 = prev[2]["count"], run["count"]
                     T1, T2 = float(Fraction(prev[2]["total"])), float(Fraction(run["total"]))
-                    if n1 != n2 or abs(math.log(T1) - math.log(T2)) > 1e-9:
+                    tie = False
+                    if n1 != n2 and abs(n1 - n2) == 1:
+                        # invert() twice returns 1/(1/r), an ulp away from r: at an exact-integer solution the real-valued
+                        # count sits on the rounding boundary and either neighbour satisfies the specification
+                        gf = {k: (float(v) if k != "count" else v) for k, v in cur.items()}
+                        for nn, TT in ((n1, prev[2]["total"]), (n2, run["total"])):
+                            _, info = self._spec_violations(L, gf, nn, TT, "tie")
+                            tie = tie or info.get("tie", False)
+                    if tie:
+                        pass
+                    elif n1 != n2 or abs(math.log(T1) - math.log(T2)) > 1e-9:
                         out.append({"site": f"Chop.calculate[{self._pairname(cur)}]:same-parameters-same-length-different-answer",
                                     "what": f"steps {case['ops'][: i + 1]} on one Chop({case['given']}): ({n1}, {T1}) then ({n2}, {T2})",
                                     "observed": [n2, T2], "expected": [n1, T1]})
